@@ -663,6 +663,7 @@ func main() {
 	var maxSqSrc, maxLinSrc string
 	skipped := 0
 	samples := map[string]bool{}
+	var watchdog []string
 	onRec := func(si int, rb json.RawMessage) {
 		var r sumRec
 		if json.Unmarshal(rb, &r) != nil || r.Kind != "sum" {
@@ -697,6 +698,11 @@ func main() {
 		}
 	}
 	onDeath := func(d pool.Death) {
+		if d.Reason == "hang" {
+			// the pool's wall-clock watchdog is never an oracle: inconclusive, flagged as harness error
+			watchdog = append(watchdog, d.Item)
+			return
+		}
 		key, clause := deathKey(d)
 		k := caseFromID(d.Item)
 		size := len(k.Hex) / 2
@@ -712,11 +718,11 @@ func main() {
 	}
 	var st1, st2 pool.Stats
 	if len(shards) > 0 {
-		st1 = pool.Run(shards, pool.Options{}, onRec, onDeath)
+		st1 = pool.Run(shards, pool.Options{HangTimeout: 10 * time.Minute}, onRec, onDeath)
 	}
 	t1 := time.Since(t0)
 	if len(lshards) > 0 {
-		st2 = pool.Run(lshards, pool.Options{Workers: 6, MemLimit: 16 << 30}, onRec, onDeath)
+		st2 = pool.Run(lshards, pool.Options{Workers: 6, MemLimit: 16 << 30, HangTimeout: 10 * time.Minute}, onRec, onDeath)
 	}
 	c.Set("wall_main_pool_s", t1.Seconds())
 	c.Set("wall_ladder_pool_s", (time.Since(t0) - t1).Seconds())
@@ -772,12 +778,15 @@ func main() {
 	if maxSq > cQuad/4 || maxLin > linPer/4 {
 		c.HarnessError("fuel bound not generous enough: measured max %.1f per (n+1)^2 (limit %d/4), %.1f per byte (limit %d/4)", maxSq, cQuad, maxLin, linPer)
 	}
+	if len(watchdog) > 0 {
+		c.HarnessError("inconclusive: %d item(s) killed by the pool's wall-clock watchdog (no verdict): %v", len(watchdog), watchdog)
+	}
 	for o := range outcomes {
 		if strings.HasPrefix(o, "base-not-clean") || strings.HasPrefix(o, "unexpected") || o == "unreadable" {
 			c.HarnessError("harness outcome %s (%d)", o, outcomes[o])
 		}
 	}
-	if outcomes["ok"] == 0 || outcomes["parse"] == 0 || outcomes["run:ok"] == 0 || len(outcomes) < 5 {
+	if os.Getenv("VERIF_C01_FAM") == "" && (outcomes["ok"] == 0 || outcomes["parse"] == 0 || outcomes["run:ok"] == 0 || len(outcomes) < 5) {
 		c.HarnessError("vacuous: outcomes %v", outcomes)
 	}
 	c.Finish(execs, execs, execs, fmt.Sprintf("every input of families (a)-(e) inside the bound parsed once on the instrumented lexer+parser (family e also run); states = inputs; %d corpus files, token strings <= %d over %d tokens x %d stems x 2 modes, ladders to depth %d", len(files), maxLen, len(alphabet), len(plainStems)+len(templStems), depths[len(depths)-1]))
